@@ -46,6 +46,11 @@ PROGRAMS = {
     "refs-and-recursion": "let @a = { 'b? @b };\nlet @b = { 'a? @a, 'n node };\nlet node = { 'left? node, 'right? node };\n"
                           "res /a on get -> <@a> :: <status=404, {}> :: <status=5XX, { 'e str }>;\nres /b on get, put -> <@b>;\n",
     "modules": None,   # filled in below (two modules)
+    "merged-annotations": "# description: \"d0\", tags: [a, b, c]\nlet st = str `enum: [draft, active, retired], title: \"t\", examples: {x: \"x.json\", y: \"y.json\"}`;\n"
+                          "let ar = st `enum: [retired, deleted, purged, active], examples: {y: \"y2.json\", z: \"z.json\"}`;\n"
+                          "# tags: [c, d, a, e], summary: \"s\", operationId: \"op\"\nlet op = get -> <[{ 'st st, 'ar ar }]> `examples: {p: \"p.json\", q: \"q.json\", r: \"r.json\"}`;\n"
+                          "# tags: [e, f, a]\nlet op2 = op `tags: [z, a]`;\nres /items on op2;\n"
+                          "res /other on (op `tags: [a, b]`), (put : <ar> -> <st>) `tags: [b, a, b]`;\n",
     "rec-inside-applied-functions": "let tree a = rec x { 'value a, 'children [x] };\nlet pair a b = { 'l tree a, 'r tree b };\n"
                                     "res /ints on get -> <tree int>;\nres /strs on get -> <tree str> :: <status=404, pair num bool>;\n",
 }
